@@ -2,10 +2,23 @@
    Statements only; every proof is `exact <lemma>`; Print Assumptions under each.
    Quantification: any number type and arithmetic (so NaNs / infinities included), any `_evaluate` of any submodel
    (sev), any four linker hooks (pre = solve_t_before, ebefore = evaluate_t_before, eafter = evaluate_t_after,
-   post = solve_t_after), any selection (None = default = insertion order), any options, any state. *)
+   post = solve_t_after), any selection (None = default = insertion order), any options, any state.
+
+   HOW TO READ THIS FILE.  Three kinds of theorems, marked in their comments:
+   [clause]   states a clause of the property's text about the model (the substantive ones: event order, the convergence clause
+              entry by entry with shape preservation, stamping and counter equality, unselected / other-period frames, KeyError,
+              constructor acceptance / rejection / maxima, default range, the two guards, single-model equivalence for solve_t
+              and for solve over a range, failure containment);
+   [code]     states what the code does where the property's text is silent (raise paths, which counters are already zeroed
+              at a KeyError, statuses only '.' / 'F', errors= merely handed down, offset ignored): true of the faithful model,
+              NOT a requirement — repairing finding twin|no-error-policy or offset (#8) will change these theorems with the model;
+   [unfold]   a one-step unfolding of a definition kept as an interface lemma (no assurance beyond the correspondence K).
+   `_refuted` theorems are witnesses of kept findings.  Only K / the oracle (no theorem): that the scripted / recorded oracles
+   are what the Python objects do; copy()/deepcopy independence (C11's subject, observed only); histories (composition of the
+   per-call theorems, checked by K and by the oracle call by call). *)
 From Coq Require Import ZArith List Bool PrimFloat.
 Import ListNotations.
-Require Import PyBase Solver SolverFacts SolverF SolveAll SolveAllFacts Linker LinkerFacts LinkerFacts2 LinkerFacts3 LinkerFacts4 LinkerRange LinkerFacts5 LinkerFacts6 LinkerF LinkerExamples LinkerExamples2.
+Require Import PyBase Solver SolverFacts SolverF SolveAll SolveAllFacts Linker LinkerFacts LinkerFacts2 LinkerFacts3 LinkerFacts4 LinkerRange LinkerFacts5 LinkerFacts6 LinkerFacts7 LinkerF LinkerExamples LinkerExamples2.
 Open Scope Z_scope.
 
 (* ---------------------------------------------------------------- what NO path of solve_t changes *)
@@ -49,8 +62,8 @@ Theorem C08_unselected_untouched :
     nth_error (l_subs (fst (linker_solve_t_M num sub absf ltb zero sev pre ebefore eafter post sel o t s))) i = Some (id, c).
 Proof. exact unselected_untouched_M. Qed.
 
-(* an unknown submodel id raises KeyError before any hook runs; exactly the counters of the ids listed BEFORE it
-   have been zeroed by then (subs1), nothing else has changed *)
+(* [clause: an unknown id raises KeyError] + [code: it does so before any hook runs, and exactly the counters of the ids
+   listed BEFORE it have been zeroed by then (subs1); the text does not ask for that — validating all ids first would be fine] *)
 Theorem C08_unknown_id_KeyError :
   forall (num : Type) (sub : num -> num -> num) (absf : num -> num) (ltb : num -> num -> bool) (zero : num)
          (sev : sid -> hook num) (pre ebefore eafter post : lhook num)
@@ -67,7 +80,8 @@ Theorem C08_unknown_id_KeyError :
 Proof. exact unknown_id_KeyError_M. Qed.
 
 (* ---------------------------------------------------------------- the call when no hook / submodel raises *)
-(* the complete equation: least converging iteration via find_first over lconvk, then the final bookkeeping *)
+(* [unfold + loop induction] the bookkeeping equation of a quiet call (least converging iteration via find_first over lconvk,
+   then lfinish); an interface lemma: the clauses are the theorems below that are derived from it *)
 Theorem C08_solve_t_quiet_spec :
   forall (num : Type) (sub : num -> num -> num) (absf : num -> num) (ltb : num -> num -> bool) (zero : num)
          (sev : sid -> hook num) (pre ebefore eafter post : lhook num)
@@ -283,7 +297,7 @@ Theorem C08_linker_guard_is_feasibility :
 Proof. exact linker_infeasible_pos. Qed.
 
 (* ---------------------------------------------------------------- offset (finding #8) *)
-(* what does hold: offset is never read — every value of it gives the same run *)
+(* [code / unfold] offset is never read (the record field is never projected): every value of it gives the same run *)
 Theorem C08_linker_offset_ignored :
   forall (num : Type) (sub : num -> num -> num) (absf : num -> num) (ltb : num -> num -> bool) (zero : num)
          (sev : sid -> hook num) (pre ebefore eafter post : lhook num)
@@ -306,7 +320,8 @@ Theorem C08_linker_offset_out_of_span_accepted :
     snd (f_linker_solve_t ss hs sel o t s) = LRet true.
 Proof. exact linker_offset_out_of_span_accepted. Qed.
 
-(* ---------------------------------------------------------------- solve(): guard + fold of solve_t *)
+(* ---------------------------------------------------------------- solve(): guard + fold of solve_t   [unfold: the three
+   theorems below are one-step unfoldings of linker_solve_M / solve_fold, kept as interface lemmas] *)
 Theorem C08_linker_solve_min_gt_max :
   forall (num : Type) (sub : num -> num -> num) (absf : num -> num) (ltb : num -> num -> bool) (zero : num)
          (sev : sid -> hook num) (pre ebefore eafter post : lhook num)
@@ -394,6 +409,7 @@ Theorem C08_ctor_accepts_iff :
     (forall ic, In ic rest -> span_elems (si_span (snd ic)) = span_elems (si_span b)).
 Proof. exact ctor_accepts_iff. Qed.
 
+(* [unfold] *)
 Theorem C08_ctor_empty :
   forall span, linker_ctor_M [] span = Ret (match span with Some sp => sp | None => mkSpan SList [] end, 0, 0).
 Proof. exact ctor_empty. Qed.
@@ -485,7 +501,9 @@ Theorem C08_solve_other_periods_untouched :
                keeps Z (iters (c_st (snd a))) (iters (c_st (snd b)))) (l_subs s) (l_subs s').
 Proof. exact solve_other_periods_untouched. Qed.
 
-(* an exception out of a linker hook or a submodel's _evaluate (LUser) surfaces unchanged and NOTHING has been stamped:
+(* [code — the property's text says nothing about raise paths; this is the behaviour the kept finding twin|no-error-policy
+   is about, stated so that a repair shows up as a change of this theorem, not as a requirement]
+   an exception out of a linker hook or a submodel's _evaluate (LUser) surfaces unchanged and NOTHING has been stamped:
    every status series (linker and submodels) and the linker's own iteration counters are as before the call *)
 Theorem C08_user_exception_stamps_nothing :
   forall (num : Type) (sub : num -> num -> num) (absf : num -> num) (ltb : num -> num -> bool) (zero : num)
@@ -498,7 +516,8 @@ Theorem C08_user_exception_stamps_nothing :
     Forall2 (fun a b : sid * comp num => fst a = fst b /\ status (c_st (snd b)) = status (c_st (snd a))) (l_subs s) (l_subs s').
 Proof. exact user_exception_stamps_nothing_M. Qed.
 
-(* on EVERY path every status entry (linker and submodels) is afterwards what it was or ONE value x, x = '.' or 'F':
+(* [code — likewise: what the linker does today, no error policy] on EVERY path every status entry (linker and submodels) is
+   afterwards what it was or ONE value x, x = '.' or 'F':
    the linker never writes 'E' / 'S' and never two different statuses in one call *)
 Theorem C08_solve_t_stamps_only_solved_or_failed :
   forall (num : Type) (sub : num -> num -> num) (absf : num -> num) (ltb : num -> num -> bool) (zero : num)
@@ -515,7 +534,7 @@ Theorem C08_solve_t_stamps_only_solved_or_failed :
                            nth_error (status (c_st (snd b))) q = Some x) (l_subs s) (l_subs s').
 Proof. exact solve_t_stamps_only_solved_or_failed_M. Qed.
 
-(* errors= / catch_first_error reach a call only as arguments handed down to the hooks and to _evaluate: if those do
+(* [code] errors= / catch_first_error reach a call only as arguments handed down to the hooks and to _evaluate: if those do
    not react to them, every policy and either flag give the same run (the linker has no error policy of its own) *)
 Theorem C08_linker_errors_only_handed_down :
   forall (num : Type) (sub : num -> num -> num) (absf : num -> num) (ltb : num -> num -> bool) (zero : num)
@@ -576,6 +595,7 @@ Theorem C08_ctor_accepts_only_equal_spans :
 Proof. exact ctor_accepts_only_equal_spans. Qed.
 
 (* ---------------------------------------------------------------- solve(start=, end=) over label ranges *)
+(* [unfold] the guard of solve() *)
 Theorem C08_linker_solve_span_min_gt_max :
   forall (num : Type) (sub : num -> num -> num) (absf : num -> num) (ltb : num -> num -> bool) (zero : num)
          (sev : sid -> hook num) (pre ebefore eafter post : lhook num) (L : Type) (locate : L -> locres)
@@ -585,6 +605,7 @@ Theorem C08_linker_solve_span_min_gt_max :
     = (s, inl (LExn ValueError)).
 Proof. exact linker_solve_span_min_gt_max. Qed.
 
+(* [unfold] iter_periods on an empty span *)
 Theorem C08_linker_solve_span_empty :
   forall (num : Type) (sub : num -> num -> num) (absf : num -> num) (ltb : num -> num -> bool) (zero : num)
          (sev : sid -> hook num) (pre ebefore eafter post : lhook num) (L : Type) (locate : L -> locres)
@@ -707,6 +728,28 @@ Theorem C08_single_model_linker_eq_model :
        snd rm = Raise (if max_iter o <? min_iter o then ValueError else IndexError)).
 Proof. exact single_model_linker_eq_model. Qed.
 
+(* [clause] the same for solve() over a RANGE: the linker over one model, solved over the positions ps (any order, repeats,
+   rejected periods included), returns the same flags — or raises the same exception at the same period — and leaves the model
+   with the same values, statuses and iteration counts as the model solved directly, one solve_t per period (direct_solve:
+   the min_iter > max_iter guard, then the fold; the first exception ends the run).  `regime` = the premises of the solve_t
+   theorem (finite check values, no raising evaluation, warning-filter independence, 0 <= max_iter) at every period of the
+   direct run; the `log` field of the model state is trace instrumentation, reset to ml0 between periods (relog) *)
+Theorem C08_single_model_linker_solve_eq_model_solve :
+  forall (num : Type) (sub : num -> num -> num) (absf : num -> num) (ltb : num -> num -> bool)
+         (isfin : num -> bool) (zero : num) (sev : sid -> hook num) (ev : hook num)
+         (d : mdesc) (o : opts num) (id : sid) (cd : mdesc) (ml0 : list event) (n : nat) (sel : option (list sid)),
+    check cd = [] -> lags cd = lags d -> leads cd = leads d -> offset o = 0 -> sel = None \/ sel = Some [id] ->
+    forall (ps : list Z) (cv : vals num) (cs : list st) (ci : list Z) (cl : list event)
+           (mv : vals num) (ms : list st) (mi : list Z) (lg : list levent),
+    length cs = n -> length ci = n ->
+    regime num sub absf ltb isfin zero sev ev d o id ml0 n ps (mkState mv ms mi ml0) ->
+    let rm := direct_solve num sub absf ltb isfin zero ev d o ml0 ps (mkState mv ms mi ml0) in
+    let rl := linker_solve_M num sub absf ltb zero sev (id_lhook num) (id_lhook num) (id_lhook num) (id_lhook num) sel o ps
+                (mkL (mkComp cd (mkState cv cs ci cl)) [(id, mkComp d (mkState mv ms mi ml0))] lg) in
+    snd rl = match snd rm with inl e => inl (LExn e) | inr bs => inr bs end /\
+    l_subs (fst rl) = [(id, mkComp d (fst rm))].
+Proof. exact single_model_linker_solve_eq_model_solve. Qed.
+
 (* ... and still FALSE outside the finite regime: BaseLinker.solve_t has no error policy (kept finding twin|no-error-policy) *)
 Theorem C08_single_model_linker_eq_model_refuted :
   exists sc o, errors o = ERaise /\ min_iter o <= max_iter o /\ offset o = 0 /\ feasible lx_dA 3 1 = true /\
@@ -746,7 +789,9 @@ Print Assumptions C08_ctor_accepts_iff.
 Print Assumptions C08_lags_leads_are_maxima.
 Print Assumptions C08_ctor_empty.
 Print Assumptions C08_single_model_linker_eq_model.
+Print Assumptions C08_single_model_linker_solve_eq_model_solve.
 Print Assumptions C08_single_model_linker_eq_model_refuted.
+Print Assumptions lx_range_regime_satisfiable.
 Print Assumptions C08_solved_iff_all_moved_lt_tol.
 Print Assumptions C08_check_vectors_keep_shape.
 Print Assumptions C08_solve_t_other_periods_untouched.
